@@ -1815,15 +1815,15 @@ class IoSetSuber(SuberBase):
                 If val is empty, remove all values at effective key.
 
         """
-        if val:
-            return self.db.remIoSetVal(sdb=self.sdb,
-                                       key=self._tokey(keys),
-                                       val=self._ser(val),
-                                       sep=self.ionsep)
-        else:
+        if val is None or (isinstance(val, (str, bytes, bytearray, memoryview))
+                           and len(val) == 0):  # empty means remove all
             return self.db.remIoVals(sdb=self.sdb,
                                        key=self._tokey(keys),
                                        sep=self.ionsep)
+        return self.db.remIoSetVal(sdb=self.sdb,
+                                   key=self._tokey(keys),
+                                   val=self._ser(val),
+                                   sep=self.ionsep)
 
 
     def cnt(self, keys: str | bytes | memoryview | Iterable):
